@@ -30,7 +30,15 @@ Ring.key_token(key_bytes)         reference token *value* of a key (spec.murmur3
 Ring.driver_token(value)          driver Token object (token_class(value)) for TokenMap.get_replicas
 token_string(partitioner, value)  the string form the server sends for a token
 FakeCluster(metadata, endpoints_resolved)
+make_policy(spec, hosts=None)     load-balancing policy from a JSON spec (hosts: list of Host by index, for predicates):
+                                  {"kind": "rr"} | {"kind": "dcaware", "local_dc": "dc0" | "", "used": 0..3}
+                                  | {"kind": "whitelist", "allowed": [host index...]}
+                                  | {"kind": "filter", "allowed": [host index...], "child": spec}
+                                  | {"kind": "default", "child": spec} | {"kind": "tokenaware", "child": spec, "shuffle": bool}
+pinned_random(randint_value, shuffle_seed)   context manager substituting cassandra.policies.randint / shuffle
 """
+import contextlib
+import random as _random
 import uuid
 
 from spec import murmur3 as _ref
@@ -53,6 +61,9 @@ def make_host(i, dc, rack, up=True):
     from cassandra.pool import Host
     h = Host(DefaultEndPoint(address(i)), SimpleConvictionPolicy, dc, rack, host_id=uuid.UUID(int=i + 1))
     h.is_up = up
+    # what the control connection fills in from system.local / system.peers
+    h.broadcast_rpc_address = address(i)
+    h.broadcast_rpc_port = 9042
     return h
 
 
@@ -143,3 +154,42 @@ class Ring(object):
 
 def build(desc):
     return Ring(desc)
+
+
+def make_policy(spec, hosts=None):
+    import cassandra.policies as P
+    kind = spec["kind"]
+    if kind == "rr":
+        return P.RoundRobinPolicy()
+    if kind == "dcaware":
+        return P.DCAwareRoundRobinPolicy(local_dc=spec.get("local_dc", ""), used_hosts_per_remote_dc=spec.get("used", 0))
+    if kind == "whitelist":
+        return P.WhiteListRoundRobinPolicy([address(i) for i in spec["allowed"]])
+    if kind == "filter":
+        allowed = frozenset(address(i) for i in spec["allowed"])
+        return P.HostFilterPolicy(make_policy(spec["child"], hosts), lambda host: host.address in allowed)
+    if kind == "default":
+        return P.DefaultLoadBalancingPolicy(make_policy(spec["child"], hosts))
+    if kind == "tokenaware":
+        return P.TokenAwarePolicy(make_policy(spec["child"], hosts), shuffle_replicas=spec.get("shuffle", False))
+    raise ValueError(kind)
+
+
+@contextlib.contextmanager
+def pinned_random(randint_value=0, shuffle_seed=0):
+    """cassandra.policies.randint(a, b) -> a + randint_value % (b - a + 1); shuffle -> random.Random(shuffle_seed).shuffle.
+    The same values are handed to every policy built inside the block (twin policies see the same 'randomness')."""
+    import cassandra.policies as P
+    saved = (P.randint, P.shuffle)
+
+    def fake_randint(a, b):
+        return a + randint_value % (b - a + 1)
+
+    def fake_shuffle(x):
+        _random.Random(shuffle_seed).shuffle(x)
+
+    P.randint, P.shuffle = fake_randint, fake_shuffle
+    try:
+        yield
+    finally:
+        P.randint, P.shuffle = saved
